@@ -332,6 +332,8 @@ class Engine:
             return [(OK, st, Val(z3.RealVal(repr(v)), REAL))]
         if isinstance(v, str):
             return [(OK, st, Val(z3.StringVal(v), STR, template=v))]
+        if isinstance(v, bytes):
+            return [(OK, st, Val(z3.StringVal(v.decode("latin-1")), STR))]   # bytes are modelled as the string of their characters
         if v is Ellipsis:
             return [(OK, st, NONE)]
         raise Unsupported(f"constant {v!r}")
